@@ -292,12 +292,39 @@ def run_inproc(ctx, exe, inputs, wd, tag, timeout_each=20):
     outcomes, accepts = [None] * len(inputs), {}
     start = 0
     while start < len(inputs):
+        # watchdog: no input may take longer than timeout_each seconds (a hang is a violation, and must not stall the run)
+        import selectors, time as _t
+        p = subprocess.Popen([exe, "--file", f, "--start", str(start), "--tmp", wd], stdout=subprocess.PIPE, stderr=subprocess.PIPE)
+        sel = selectors.DefaultSelector()
+        sel.register(p.stdout, selectors.EVENT_READ)
+        buf, last, hung = b"", _t.time(), False
+        os.set_blocking(p.stdout.fileno(), False)
+        while True:
+            if sel.select(timeout=1.0):
+                chunk = p.stdout.read()
+                if chunk:
+                    buf += chunk
+                    if b"\nE\t" in chunk or chunk.startswith(b"E\t") or b"\nB\t" in chunk:
+                        last = _t.time()
+                elif p.poll() is not None:
+                    break
+            elif p.poll() is not None:
+                break
+            if _t.time() - last > timeout_each:
+                hung = True
+                p.kill()
+                break
         try:
-            p = subprocess.run([exe, "--file", f, "--start", str(start), "--tmp", wd], stdout=subprocess.PIPE, stderr=subprocess.PIPE,
-                               timeout=max(120, timeout_each * (len(inputs) - start)))
-            rc, out = p.returncode, p.stdout.decode("utf-8", "replace")
-        except subprocess.TimeoutExpired as ex:
-            rc, out = 124, (ex.stdout or b"").decode("utf-8", "replace")
+            rest, errb = p.communicate(timeout=10)
+        except Exception:
+            rest, errb = b"", b""
+        buf += rest or b""
+        rc = 124 if hung else p.returncode
+        out = buf.decode("utf-8", "replace")
+
+        class _P:          # what the attribution code below expects
+            stderr = errb or b""
+        p = _P
         cur, stage = None, ""
         for line in out.splitlines():
             t = line.split("\t")
